@@ -15,7 +15,7 @@ var libNoEffect = map[string]bool{
 	"sync.Mutex.Lock": true, "sync.Mutex.Unlock": true, "sync.RWMutex.Lock": true, "sync.RWMutex.Unlock": true,
 	"sync.RWMutex.RLock": true, "sync.RWMutex.RUnlock": true,
 	"strings.Builder.String": true, "strings.Builder.WriteString": true, "strings.Builder.WriteByte": true,
-	"bytes.Buffer.String": true, "bytes.Buffer.WriteString": true,
+	"bytes.Buffer.String": true, "bytes.Buffer.WriteString": true, "bytes.Equal": true,
 	"strconv.FormatUint": true, "strconv.Itoa": true, "strconv.Quote": true,
 }
 
@@ -54,6 +54,12 @@ func (tr *Tr) libCall(key string, f *ssa.Function, args []Value, resT types.Type
 			}
 		}
 		return Sc{T: res}, true
+	case "bytes.Equal":
+		// T-lib: equal byte slices have equal length (the contents are not modelled: the result is otherwise unspecified)
+		a, b := tr.asSl(args[0]), tr.asSl(args[1])
+		r := tr.freshSym("bytesEq", true)
+		tr.sc.fact(sImp(r, sEq(a.Len, b.Len)))
+		return Sc{T: r, Bool: true}, true
 	case "fmt.Fprintf", "fmt.Fprint", "strings.Builder.WriteString", "bytes.Buffer.WriteString":
 		return Tup{E: []Value{Sc{T: tr.freshOpaque("n")}, If{"0", "0"}}}, true
 	case "strings.Builder.WriteByte":
